@@ -20,10 +20,12 @@ ReadArmoredKeyRing on keyrings assembled from real packets with real signatures)
 first checked equal to every TLC vector and then judges the bulk (length sweeps, random write sequences, longer keyrings).
 GnuPG is an optional independent judge (framing in both directions, keyring acceptance).
 
-Documented model-level counterexamples (must be found by TLC) mirror three open findings of the real code:
-  X03-R1 partialLengthReader reports io.EOF on a cut stream when the underlying reader returns data together with io.EOF,
-  X03-W1 a stream shorter than 512 octets leaves as partial chunks shorter than 512 (RFC 4880 4.2.2.4),
-  X03-C1 the packet following a partial-length compressed packet is not found (final length octet left unread).
+Documented model-level counterexamples (must be found by TLC, thorough tier) mirror the three findings of this check:
+  X03-R1 (repaired in /repo) partialLengthReader reported io.EOF on a cut stream when the underlying reader returns data together
+         with io.EOF: the models default to FixEof = TRUE (the code as it is); PGPFramingStream_DocEof.cfg (FixEof = FALSE) keeps the
+         counterexample as documentation only; a regression on the code is a VIOLATION with the original signature,
+  X03-W1 (open) a stream shorter than 512 octets leaves as partial chunks shorter than 512 (RFC 4880 4.2.2.4),
+  X03-C1 (open) the packet following a partial-length compressed packet is not found (final length octet left unread).
 """
 import concurrent.futures as cf
 import json, os, subprocess, threading, time
@@ -100,7 +102,6 @@ def run(ctx):
     if T:
         jobs += [("PGPFramingStream_MC", "PGPFramingStream_MCW4.cfg", 8),
                  ("PGPFramingStream_MC", "PGPFramingStream_Fixed.cfg", 4),
-                 ("PGPFramingStream_MC", "PGPFramingStream_CraftedFixed.cfg", 2),
                  ("PGPFramingStream_MC", "PGPFramingStream_DocShort.cfg", 1),
                  ("PGPFramingStream_MC", "PGPFramingStream_DocEof.cfg", 1),
                  ("PGPFraming_MC", "PGPFraming_WriterDoc.cfg", 1),
@@ -249,7 +250,7 @@ def run(ctx):
     if T:
         ctx.extra["documented_model_counterexamples"] = sorted("%s: %s" % (c, v) for (m, c), v in EXPECT.items())
     else:
-        ctx.notes.append("the model-level counterexamples that document the three open findings (Doc*.cfg) are run in the thorough tier")
+        ctx.notes.append("the model-level counterexamples that document the findings X03-R1 (repaired), X03-W1, X03-C1 (Doc*.cfg) are run in the thorough tier")
     if ctx.extra.get("x03_gpg_disagreement"):
         ctx.notes.append("GnuPG lists a well-formed keyring differently (informational): %s" % str(ctx.extra["x03_gpg_disagreement"])[:400])
     ctx.notes.append("exact chunking of the writer is compared informationally (x03_writer_chunking_*); the verdict is on the properties B2/B3")
